@@ -141,6 +141,13 @@ ASSUME \A o \in {<<"-L">>, <<"-P">>} : Step(P, PS, Cd0(o, <<"">>)).st[1] > 0
 ASSUME Step(P, PS, Cd0(<<>>, <<"_no_such_directory_">>)).st = <<2, 2>>
 ASSUME Step(P, PS, CdV(<<<<"HOME", "">>>>, <<>>, <<>>)).st = <<4, 4>>
 ASSUME Step(P, PS, CdV(<<<<"OLDPWD", "">>>>, <<>>, <<"-">>)).st = <<4, 4>>
+\* 'read-only PWD': readonly PWD; cd dir -> status 1, PWD=$ORIGPWD, pwd prints $ORIGPWD/dir
+ASSUME LET R == Step(P, PS, CdV(<<<<"readonly", "PWD">>>>, <<>>, <<"dev">>)) IN
+       /\ R.st = <<1, 1>> /\ R.S.pwd = "/w" /\ R.S.cwd = W(<<"dev">>)
+       /\ Prints(Step(P, R.S, PwdC(<<>>)), "/w/dev")
+\* 'unset OLDPWD' (sic): readonly OLDPWD=/; cd dir -> status 1, OLDPWD=/
+ASSUME LET R == Step(P, PS, CdV(<<<<"OLDPWD", "/">>, <<"readonly", "OLDPWD">>>>, <<>>, <<"dev">>)) IN
+       R.st = <<1, 1>> /\ R.S.oldpwd = "/" /\ R.S.pwd = "/w/dev"
 \* '/.. is kept intact (-o POSIX)': cd /../../dev; $PWD -> /../../dev
 ASSUME Ok(Step(P, PS, Cd0(<<>>, <<"/../../dev">>)), "/../../dev", <<>>)
 \* 'redundant slashes are removed': cd .//dev///; pwd -> $ORIGPWD/dev
